@@ -14,6 +14,7 @@
         send    (hook) a control packet is being sent: its state / discriminators
         notimer the driver sent nothing for 10 s after a packet announcing a 2 ms detection time
                 and no expiry happened
+        idle-begin / idle-end   the driver left the session alone for `ms` milliseconds
         quiet   (pair) from here on the link is lossless
         settle  (pair) whether the hook's last reported state was Up within 30 s of `quiet`
         stuck   an accepted packet was never processed
@@ -32,22 +33,23 @@ VARIABLES local,    \* model state of the session
           pend,     \* accepted packets not yet processed (FIFO of [state, my, your, mult, dtxms])
           det,      \* [ms, mult]: detection time announced by the last processed packet (ms = -1: not judged)
           cfg,      \* [kind, rxms, lmult] of the current trace
+          idle,     \* -1, or the number of packets sent since the last idle-begin marker
           failed, l
-vars == <<local, rd, pend, det, cfg, failed, l>>
+vars == <<local, rd, pend, det, cfg, idle, failed, l>>
 kind == cfg.kind
 NoDet == [ms |-> -1, mult |-> 0]
 R == Trace[l]
 
 Init == /\ local = "Down" /\ rd = 0 /\ pend = <<>> /\ det = NoDet
-        /\ cfg = [kind |-> "none", rxms |-> 0, lmult |-> 0] /\ failed = FALSE /\ l = 1
+        /\ cfg = [kind |-> "none", rxms |-> 0, lmult |-> 0] /\ idle = -1 /\ failed = FALSE /\ l = 1
 
 Bad(key) == /\ PrintT(<<"VERIF-BAD", l, key>>)
             /\ failed' = TRUE
-            /\ UNCHANGED <<local, rd, pend, det, cfg>>
+            /\ UNCHANGED <<local, rd, pend, det, cfg, idle>>
 Drift(ok, key) == IF ok THEN TRUE ELSE PrintT(<<"VERIF-DRIFT", l, key>>)
 
 Reset == /\ local' = "Down" /\ rd' = 0 /\ pend' = <<>> /\ det' = NoDet
-         /\ cfg' = [kind |-> R.kind, rxms |-> R.rxms, lmult |-> R.lmult] /\ failed' = FALSE
+         /\ cfg' = [kind |-> R.kind, rxms |-> R.rxms, lmult |-> R.lmult] /\ idle' = -1 /\ failed' = FALSE
 
 -----------------------------------------------------------------------------
 (* the transition table: the four received-state events in Down / Init / Up and the timer must be the
@@ -56,15 +58,15 @@ Reset == /\ local' = "Down" /\ rd' = 0 /\ pend' = <<>> /\ det' = NoDet
 Tr == LET st == StateName(R.st)
           ev == StateName(R.e) IN
       IF st \notin States \/ ev \notin (Events \cup {"AdminUp"})
-        THEN /\ Drift(R.panic, "table:unknown-state-or-event-accepted") /\ UNCHANGED <<local, rd, pend, det, cfg, failed>>
+        THEN /\ Drift(R.panic, "table:unknown-state-or-event-accepted") /\ UNCHANGED <<local, rd, pend, det, cfg, idle, failed>>
       ELSE IF R.panic THEN Bad("table:panic:st=" \o st \o ",ev=" \o ev)
       ELSE IF ev = "AdminUp" \/ ev = "AdminDown" \/ st = "AdminDown"
         THEN /\ Drift(IF ev = "AdminUp" THEN TRUE ELSE StateName(R.next) = Rfc(st, ev),
                       "table:st=" \o st \o ",ev=" \o ev \o ",next=" \o StateName(R.next))
-             /\ UNCHANGED <<local, rd, pend, det, cfg, failed>>
+             /\ UNCHANGED <<local, rd, pend, det, cfg, idle, failed>>
       ELSE IF StateName(R.next) # Rfc(st, ev)
         THEN Bad("table:st=" \o st \o ",ev=" \o ev \o ",next=" \o StateName(R.next) \o ",want=" \o Rfc(st, ev))
-      ELSE UNCHANGED <<local, rd, pend, det, cfg, failed>>
+      ELSE UNCHANGED <<local, rd, pend, det, cfg, idle, failed>>
 
 -----------------------------------------------------------------------------
 Unsupported == R.auth \/ R.poll \/ R.final \/ R.echo \/ R.demand
@@ -82,7 +84,7 @@ Pkt == LET p == [ver |-> R.ver, lenok |-> TRUE, mult |-> R.mult, multipoint |-> 
        ELSE /\ pend' = IF R.discard THEN pend
                        ELSE Append(pend, [state |-> p.state, my |-> R.my, your |-> R.your, mult |-> R.mult, dtxms |-> R.dtxms])
             /\ Drift(~(Unsupported /\ ~RfcDiscard(p) /\ R.discard), "admit:unsupported-feature-discarded")
-            /\ UNCHANGED <<local, rd, det, cfg, failed>>
+            /\ UNCHANGED <<local, rd, det, cfg, idle, failed>>
 
 DiscName(d) == CASE d = 0 -> "zero" [] d = 1 -> "own" [] d = 2 -> "peer" [] OTHER -> "other"
 Recv == LET ms == StateName(R.state)
@@ -104,7 +106,7 @@ Recv == LET ms == StateName(R.state)
              \* Interval, received Desired Min TX Interval); re-armed by every accepted packet
              /\ det' = [ms |-> Head(pend).mult * (IF cfg.rxms > Head(pend).dtxms THEN cfg.rxms ELSE Head(pend).dtxms),
                         mult |-> Head(pend).mult]
-             /\ UNCHANGED <<cfg, failed>>
+             /\ UNCHANGED <<cfg, idle, failed>>
 
 LateSlackMs == 5000
 MultClass == (IF det.mult > cfg.lmult THEN "remote-mult>local-mult"
@@ -121,29 +123,37 @@ Timer == LET got == StateName(R.local)
            THEN Bad("timer:expired-long-after-detection-time:" \o MultClass)
          ELSE /\ local' = got /\ rd' = R.rdisc /\ det' = NoDet
               /\ Drift(R.rdisc = 0, "timer:remote-discriminator-not-cleared")
-              /\ UNCHANGED <<pend, cfg, failed>>
+              /\ UNCHANGED <<pend, cfg, idle, failed>>
 
 Send == IF StateName(R.state) # local
           THEN Bad("send:state=" \o StateName(R.state) \o ",local=" \o local)
         ELSE IF R.my # 1 THEN Bad("send:my-discriminator-is-not-the-local-one")
         ELSE IF R.your = 0 /\ local \in {"Init", "Up"} THEN Bad("send:your-discriminator-zero:state=" \o local)
-        ELSE /\ Drift(R.your = rd, "send:your-discriminator-differs-from-remote-discriminator")
+        \* RFC 5880 6.8.7: Your Discriminator is set to bfd.RemoteDiscr (the last My Discriminator received,
+        \* zero after a detection-time expiry)
+        ELSE IF R.your # rd THEN Bad("send:your-discriminator-not-echoed:sent=" \o DiscName(R.your) \o ",remote=" \o DiscName(rd))
+        ELSE /\ idle' = IF idle >= 0 THEN idle + 1 ELSE idle
              /\ UNCHANGED <<local, rd, pend, det, cfg, failed>>
 
 Settle == IF ~R.up \/ local # "Up" THEN Bad("recover:not-up-after-quiet-period:local=" \o local)
           ELSE /\ Drift(R.isup, "settle:IsUp-differs-from-hook-state")
-               /\ UNCHANGED <<local, rd, pend, det, cfg, failed>>
+               /\ UNCHANGED <<local, rd, pend, det, cfg, idle, failed>>
 
 Step == /\ l <= Len(Trace)
         /\ l' = l + 1
         /\ IF R.ev = "reset" THEN Reset
-           ELSE IF failed THEN UNCHANGED <<local, rd, pend, det, cfg, failed>>
+           ELSE IF failed THEN UNCHANGED <<local, rd, pend, det, cfg, idle, failed>>
            ELSE CASE R.ev = "tr" -> Tr
                   [] R.ev = "pkt" -> Pkt
                   [] R.ev = "recv" -> Recv
                   [] R.ev = "timer" -> Timer
                   [] R.ev = "send" -> Send
-                  [] R.ev = "quiet" -> UNCHANGED <<local, rd, pend, det, cfg, failed>>
+                  [] R.ev = "quiet" -> UNCHANGED <<local, rd, pend, det, cfg, idle, failed>>
+                  [] R.ev = "idle-begin" -> idle' = 0 /\ UNCHANGED <<local, rd, pend, det, cfg, failed>>
+                  \* RFC 5880 6.8.7: control packets are transmitted periodically in every state (a session
+                  \* that is not Up at least about once per second): nothing at all in 5 s is a violation
+                  [] R.ev = "idle-end" -> IF idle = 0 THEN Bad("send:nothing-sent-while-left-alone:local=" \o local)
+                                         ELSE idle' = -1 /\ UNCHANGED <<local, rd, pend, det, cfg, failed>>
                   [] R.ev = "settle" -> Settle
                   [] R.ev = "notimer" -> Bad("timer:no-expiry-after-detection-time:local=" \o local)
                   [] R.ev = "stuck" -> Bad("stuck:" \o R.what)
